@@ -161,6 +161,33 @@ def act_tokens(sc, a):
             int(a.req_access), svc, proc, os_, int(grant)]
 
 
+def def_tokens(sc, a):
+    """the action as the *scenario* defines it (same token layout as act_tokens): cost / probability / granted access
+    of an exploit or escalation come from the scenario's definition of that name, the cost of a scan from the
+    scenario's scan costs - so that an action object whose attributes drifted from the definition (C05: "the cost the
+    scenario defines", C07: "the action's success probability") makes the implementation's transition differ from the
+    model's, not just its entry in the action list (C11)"""
+    tk = act_tokens(sc, a)
+    try:
+        if isinstance(a, Exploit) and a.name in sc.exploits:
+            d = sc.exploits[a.name]
+            tk[3], tk[4], tk[9] = sv(d["cost"]), fr(d["prob"]), int(d["access"])
+        elif isinstance(a, PrivilegeEscalation) and a.name in sc.privescs:
+            d = sc.privescs[a.name]
+            tk[3], tk[4], tk[9] = sv(d["cost"]), fr(d["prob"]), int(d["access"])
+        elif isinstance(a, ServiceScan):
+            tk[3], tk[4] = sv(sc.service_scan_cost), fr(1.0)
+        elif isinstance(a, OSScan):
+            tk[3], tk[4] = sv(sc.os_scan_cost), fr(1.0)
+        elif isinstance(a, SubnetScan):
+            tk[3], tk[4] = sv(sc.subnet_scan_cost), fr(1.0)
+        elif isinstance(a, ProcessScan):
+            tk[3], tk[4] = sv(sc.process_scan_cost), fr(1.0)
+    except Exception:
+        pass
+    return tk
+
+
 def act_key(toks):
     return " ".join(str(t) for t in toks)
 
